@@ -6,7 +6,7 @@ From Via Require Import M_Char M_Parse M_Receive P_Parse.
 From Via Require Import P_Frag P_FragC P_Term P_TermC.
 From Via Require Import M_Imp M_Loop M_Hdr M_Msg M_Chunk Gen_Parse P_Imp P_Loop P_Hdr P_Msg P_C06b P_Chunk.
 From Via Require Import M_Client P_Client.
-From Via Require Import M_Query M_Recv P_C06b P_Chunk P_Recv P_RecvC.
+From Via Require Import M_Query M_Recv P_C05 P_C06b P_Chunk P_Recv P_RecvC P_RecvC2.
 Local Open Scope N_scope.
 
 Theorem C07_status_line_fragments : forall L a r b, sl_valid r = false ->
@@ -211,11 +211,10 @@ Print Assumptions C07_response_reset_is_the_source.
    clear() are translated from clang's AST on every run (terms of M_Recv.v whose calls run the translated functions of
    the layers below), and the model's creceive, about which the theorems of this file speak, is proved to return what
    the translated body returns - Rx value, receiver afterwards, input left unread - for every receiver whose parts
-   satisfy the invariants the connection keeps (rc_inv, hd_ok), limits below 2^63, every input, every sufficient fuel,
-   and every call in which the model does not report its undefined case (RX_UB: `iter + required` with a negative
-   `required`, i.e. more body collected than announced; the translated source is `None` there). *)
+   satisfy the invariants the connection keeps (cbody_inv: P_RecvC2; rc_inv, hd_ok), limits below 2^63, every input on
+   which the loop calls it (non-empty once the head is complete) and every sufficient fuel. *)
 Theorem C07_receive_is_the_source : forall cfg c buf fuel,
-  snd (creceive cfg c buf) <> RX_UB ->
+  cbody_inv cfg c -> (rp_valid (cv_rsp c) = true -> buf <> []) ->
   hd_ok (rp_headers (cv_rsp c)) -> rc_inv (cc_lim cfg) (cv_chunk c) -> hd_ok (rc_trailers (cv_chunk c)) ->
   small (ck_max (rc_hdr (cv_chunk c))) -> small (cc_max_body cfg) -> small (nlen (cv_body c)) ->
   (length buf + 2 <= fuel)%nat ->
@@ -223,7 +222,17 @@ Theorem C07_receive_is_the_source : forall cfg c buf fuel,
        (cc_max_body cfg) false false cv_clear_src fuel cv_receive_src (cv_store c) buf =
   (let '(c', rest, r) := creceive cfg c buf in
    match rx_of r with Some x => Some (x, cv_store c', rest) | None => None end).
-Proof. exact creceive_is_the_source. Qed.
+Proof.
+  intros cfg c buf fuel Hbi Hne. pose proof (creceive_safe cfg c buf Hbi Hne) as [_ Hub].
+  exact (creceive_is_the_source cfg c buf fuel Hub).
+Qed.
+(* the premise about the body collected so far is an invariant of the client's read loop: over every sequence of reads no
+   call of creceive reaches the model's undefined case (the loop calls receive only on a non-empty buffer) *)
+Theorem C07_client_calls_never_undefined : forall cfg frags v, cbody_inv cfg v ->
+  let '(v', _, calls, _) := cfeed cfg v frags in cbody_inv cfg v' /\ Forall calls_ok calls.
+Proof. intros cfg frags v. exact (cfeed_safe cfg frags v). Qed.
+Example C07_client_invariant_initially : forall cfg, cbody_inv cfg (cv_init cfg).
+Proof. exact cbody_inv_init. Qed.
 (* the translated function really runs: a complete response with a body of three bytes, one byte more in the buffer *)
 Example C07_receive_source_example :
   let cfg := mk_ccfg (mk_limits 8190 8 100 65534 1024 8 65534 65534 false) 1048576 1048576 in
@@ -235,3 +244,4 @@ Example C07_receive_source_example :
   end.
 Proof. vm_compute. split; reflexivity. Qed.
 Print Assumptions C07_receive_is_the_source.
+Print Assumptions C07_client_calls_never_undefined.
